@@ -56,6 +56,13 @@ CHECKS = {
         technique="deterministic simulation of emitted VHDL with seeded reach instants and stall/reset faults; per-clock comparison with cycle-exact reference models",
         ref="6/C16",
     ),
+    "C03": dict(
+        level="exploration",
+        text="Seeded deterministic simulation: generated designs with 1-3 contexts (clocked sequential, concurrent, unclocked sequential with inferred sensitivity) chained through signals; bodies use <<= / .next on whole signals, slices, bits and run-time indexed array elements, @= / .value on Unsigned, Bit and bool variables, ^= / .push, local names that alias or snapshot variables, if/elif/else, match with and without default, for-break chains with and without else, a helper function with returns in nested branches, `with cohdl.always:` and cohdl.always(expr). Compiled by the real CoHDL, executed in VSIM under seeded process order, input offsets (pre/post/glitch) and stimulus (single-input changes for the sensitivity monitor) with the read-before-write monitor on; every output compared every clock with an interpreter of the statement.",
+        note="Trusted: VSIM, the reference interpreter (written from the statement; aliasing of plain name bindings calibrated), program size <= 12 statements per context / depth 3, 4-bit data, runs <= 200 clocks. Illegal VHDL is left to C06.",
+        technique="deterministic simulation of emitted VHDL (seeded scheduler, input offsets, stimulus) vs executable reference model of the assignment semantics",
+        ref="6/C03",
+    ),
 }
 
 NOT_APPLICABLE = {
